@@ -25,10 +25,9 @@ PLAN = {
     "C01": dict(
         title="Backpropagated gradients are the true derivatives of the objective",
         level="proof",
-        verus=["C01_conv_backward.rs", "C01_deconv_backward.rs", "C07_activations.rs"],
+        verus=["C01_conv_backward.rs", "C01_deconv_backward.rs", "C01_maxpool_backward.rs", "C07_activations.rs"],
         kani=True,
         undecided_clauses=[
-            "max-pool routing (Maxpool::backward) is not under contract",
             "dense backward and soft-max x cross-entropy are bounded Kani harnesses (2->2 / 1->2, small-integer data), not proofs",
             "the reverse layer walk (Network::backward / Feedback::backward: which gradient is handed to which layer, skip connections) "
             "is read, not verified"],
@@ -36,9 +35,12 @@ PLAN = {
     "C02": dict(
         title="Each layer's forward pass computes its defining operator",
         level="proof",
-        verus=["C02_convolve.rs", "C02_deconv_forward.rs", "C02_pad3d.rs"],
+        verus=["C02_convolve.rs", "C02_deconv_forward.rs", "C02_maxpool_forward.rs", "C02_pad3d.rs"],
         kani=True,
-        undecided_clauses=["max-pool window maximum, dense W x + b, flat == spatial, zero padding (pad3d), network = composition: units under construction"],
+        undecided_clauses=["max-pool: inputs are required to be above f32::MIN (the scan's start value); an element equal to f32::MIN in a 1x1 window would "
+                           "record index (0,0)",
+                           "dense W x + b is a bounded Kani harness (2->2); a network's prediction = composition of its layers: read (Network::_forward), not verified",
+                           "the glue inside Convolution/Deconvolution/Maxpool::forward around the verified kernels (activation call, flatten flag) is by program order"],
     ),
     "C08": dict(
         title="Announced layer shapes equal produced shapes; transitions lose nothing",
